@@ -101,6 +101,15 @@ class Module:
             self.tree = ast.parse(self.src, filename=path)
         except SyntaxError as e:
             raise AnalysisError(f"{rel} does not parse: {e}")
+        self.inlined = []
+        if os.environ.get("OVLDLINT_NO_INLINE") != "1":
+            from .inline import inline_new_helpers, propagate_all
+
+            try:
+                self.tree, self.inlined = inline_new_helpers(name, self.tree)
+            except RecursionError:  # pragma: no cover
+                self.inlined = []
+            propagate_all(self.tree)
         self.funcs = {}
         self.classes = {}
         self.imports = {}  # local name -> (module, name) for in-package; ('ext', dotted) otherwise
@@ -156,6 +165,10 @@ class Module:
                         k += 1
                     qn = f"{qn}#{k}"
                 fi = FuncInfo(self, qn, st, cls=cls, parent=parent_func)
+                if qn in self.inlined:
+                    # a helper introduced by an extract-method refactoring: analysed where it is called
+                    self._walk(st.body, qn + ".", None, fi)
+                    continue
                 self.funcs[qn] = fi
                 if cls is not None:
                     cls.methods.setdefault(st.name, fi)
